@@ -1722,6 +1722,197 @@ def wSpec : GrammarSpec :=
 
 def wG : Grammar := analyse wSpec
 
+/-! ### An explicit fuel bound: the fuel of `boundedLanguage` is enough -/
+
+/-- every registered production list is at most as long as the class list (no duplicates is
+enough; an invariant of `register_type`, which lists each registered class once) -/
+def prodsShort (g : Grammar) : Bool :=
+  g.reg.alts.all fun kv => decide (kv.2.length ≤ g.spec.classes.length)
+
+theorem prodsShort_elim (g : Grammar) (h : prodsShort g = true) (n : Nat) (ps : List Nat)
+    (ha : g.altsOf n = some ps) : ps.length ≤ g.spec.classes.length := by
+  have hm := WellTyped.getAlts_mem _ _ _ ha
+  simp only [prodsShort, List.all_eq_true, decide_eq_true_eq] at h
+  exact h _ hm
+
+theorem fuelOKs_of_forall (g : Grammar) (b F : Nat) : ∀ (ts : List Ty),
+    (∀ t ∈ ts, fuelOK g F b t = true) → fuelOKs g (F + ts.length) b ts = true
+  | [], _ => by simp [fuelOKs]
+  | t :: ts, h => by
+    have e : F + (t :: ts).length = (F + ts.length) + 1 := by simp only [List.length_cons]; omega
+    rw [e, fuelOKs, Bool.and_eq_true]
+    exact ⟨fuelOK_mono_le g b t F _ (by omega) (h t List.mem_cons_self),
+      fuelOKs_of_forall g b F ts fun x hx => h x (List.mem_cons_of_mem _ hx)⟩
+
+theorem chain_bound (g : Grammar) (hwf : altsWF g)
+    (hshort : ∀ n ps, g.altsOf n = some ps → ps.length ≤ g.spec.classes.length) (b C : Nat)
+    (hconc : ∀ n, g.altsOf n = none → fuelOK g C b (.cls n) = true) :
+    ∀ k n, g.spec.classes.length - n ≤ k →
+      fuelOK g (C + k * (g.spec.classes.length + 1)) b (.cls n) = true := by
+  intro k
+  induction k with
+  | zero =>
+    intro n hk
+    cases ha : g.altsOf n with
+    | none => simpa using hconc n ha
+    | some prods => have := (hwf n prods ha).1; omega
+  | succ k ihk =>
+    intro n hk
+    cases ha : g.altsOf n with
+    | none => exact fuelOK_mono_le g b _ C _ (by omega) (hconc n ha)
+    | some prods =>
+      have hb := hwf n prods ha
+      have hl := hshort n prods ha
+      have hall : ∀ t ∈ prods.map Ty.cls,
+          fuelOK g (C + k * (g.spec.classes.length + 1)) b t = true := by
+        intro t ht
+        obtain ⟨p, hp, rfl⟩ := List.mem_map.1 ht
+        have := hb.2 p hp
+        exact ihk p (by omega)
+      have h1 := fuelOKs_of_forall g b _ _ hall
+      rw [List.length_map] at h1
+      have e : C + (k + 1) * (g.spec.classes.length + 1) =
+          (C + k * (g.spec.classes.length + 1) + g.spec.classes.length) + 1 := by
+        rw [Nat.succ_mul]; omega
+      rw [e, fuelOK_cls, ha]
+      split
+      · rfl
+      · exact fuelOKs_mono_le g b _ _ _ (by omega) h1
+
+theorem ty_size_pos : ∀ (ty : Ty), 1 ≤ Ty.size ty
+  | .int | .float | .str | .bool | .cls _ => by simp [Ty.size]
+  | .list _ | .ann _ _ | .tuple _ | .union _ => by simp only [Ty.size]; omega
+
+mutual
+theorem size_ty_bound (g : Grammar) (b C : Nat) (hC : ∀ n, fuelOK g C b (.cls n) = true) :
+    ∀ (ty : Ty) (F : Nat), C + 2 * Ty.size ty ≤ F + 1 → fuelOK g F b ty = true
+  | .cls n, F, h => fuelOK_mono_le g b _ C F (by simp only [Ty.size] at h; omega) (hC n)
+  | .int, F, h | .float, F, h | .str, F, h | .bool, F, h | .list _, F, h => by
+    obtain ⟨F', rfl⟩ : ∃ F', F = F' + 1 := ⟨F - 1, by have := ty_size_pos; simp only [Ty.size] at h; omega⟩
+    simp [fuelOK]
+  | .tuple ts, F, h => by
+    simp only [Ty.size] at h
+    obtain ⟨F', rfl⟩ : ∃ F', F = F' + 1 := ⟨F - 1, by omega⟩
+    simp only [fuelOK]
+    exact size_tys_bound g b C hC ts F' (by omega)
+  | .union ts, F, h => by
+    simp only [Ty.size] at h
+    obtain ⟨F', rfl⟩ : ∃ F', F = F' + 1 := ⟨F - 1, by omega⟩
+    simp only [fuelOK]
+    exact size_tys_bound g b C hC ts F' (by omega)
+  | .ann base mh, F, h => by
+    simp only [Ty.size] at h
+    have hp := ty_size_pos base
+    obtain ⟨F', rfl⟩ : ∃ F', F = F' + 1 := ⟨F - 1, by omega⟩
+    cases base with
+    | list t =>
+      simp only [Ty.size] at h
+      cases mh <;> simp only [fuelOK]
+      exact size_ty_bound g b C hC t F' (by omega)
+    | _ => simp [fuelOK]
+theorem size_tys_bound (g : Grammar) (b C : Nat) (hC : ∀ n, fuelOK g C b (.cls n) = true) :
+    ∀ (ts : List Ty) (F : Nat), C + 2 * Ty.sizeList ts ≤ F → fuelOKs g F b ts = true
+  | [], F, _ => by simp [fuelOKs]
+  | t :: ts, F, h => by
+    simp only [Ty.sizeList] at h
+    have hp := ty_size_pos t
+    obtain ⟨F', rfl⟩ : ∃ F', F = F' + 1 := ⟨F - 1, by omega⟩
+    rw [fuelOKs, Bool.and_eq_true]
+    exact ⟨size_ty_bound g b C hC t F' (by omega), size_tys_bound g b C hC ts F' (by omega)⟩
+end
+
+theorem sum_map_ge_length {α : Type} (f : α → Nat) : ∀ (l : List α),
+    l.length ≤ (l.map fun x => 1 + f x).sum
+  | [] => by simp
+  | x :: l => by
+    have := sum_map_ge_length f l
+    simp only [List.length_cons, List.map_cons, List.sum_cons]; omega
+
+theorem le_sum_of_mem {α : Type} (f : α → Nat) : ∀ (l : List α) (x : α), x ∈ l → f x ≤ (l.map f).sum
+  | [], _, h => by cases h
+  | y :: l, x, h => by
+    simp only [List.map_cons, List.sum_cons]
+    rcases List.mem_cons.1 h with rfl | h
+    · omega
+    · have := le_sum_of_mem f l x h; omega
+
+theorem sizeList_fields_le (fs : List (String × Ty)) :
+    Ty.sizeList (fs.map (·.2)) ≤ (fs.map fun f => 1 + Ty.size f.2).sum := by
+  induction fs with
+  | nil => simp [Ty.sizeList]
+  | cons f fs ih => simp only [List.map_cons, Ty.sizeList, List.sum_cons]; omega
+
+theorem length_le_specSize (s : GrammarSpec) : s.classes.length ≤ specSize s := by
+  have := sum_map_ge_length (fun c : ClassDecl => (c.fields.map fun f => 1 + Ty.size f.2).sum) s.classes
+  unfold specSize; omega
+
+theorem fields_size_le_specSize (g : Grammar) (n : Nat) :
+    Ty.sizeList ((g.cls n).fields.map (·.2)) ≤ specSize g.spec := by
+  unfold Grammar.cls
+  rw [List.getD_eq_getElem?_getD]
+  cases hc : g.spec.classes[n]? with
+  | none => simp; exact Nat.zero_le _
+  | some d =>
+    have h1 := sizeList_fields_le d.fields
+    have h2 := le_sum_of_mem (fun c : ClassDecl => 1 + (c.fields.map fun f => 1 + Ty.size f.2).sum)
+      g.spec.classes d (List.mem_of_getElem? hc)
+    simp only [Option.getD_some]
+    unfold specSize
+    omega
+
+/-- fuel spent per depth level: the abstract chain, then the fields and their type expressions -/
+def levelCost (g : Grammar) : Nat :=
+  2 * specSize g.spec + 1 + g.spec.classes.length * (g.spec.classes.length + 1)
+
+theorem cls_bound (g : Grammar) (hwf : altsWF g)
+    (hshort : ∀ n ps, g.altsOf n = some ps → ps.length ≤ g.spec.classes.length) :
+    ∀ (b n : Nat), fuelOK g ((b + 1) * levelCost g) b (.cls n) = true := by
+  intro b
+  induction b with
+  | zero =>
+    intro n
+    have hconc : ∀ n, g.altsOf n = none → fuelOK g (2 * specSize g.spec + 1) 0 (.cls n) = true := by
+      intro n ha
+      have e : 2 * specSize g.spec + 1 = (2 * specSize g.spec) + 1 := rfl
+      rw [e, fuelOK_cls, ha]
+      split <;> rfl
+    have := chain_bound g hwf hshort 0 _ hconc g.spec.classes.length n (by omega)
+    simpa [levelCost] using this
+  | succ b ihb =>
+    intro n
+    have hconc : ∀ n, g.altsOf n = none →
+        fuelOK g ((b + 1) * levelCost g + 2 * specSize g.spec + 1) (b + 1) (.cls n) = true := by
+      intro n ha
+      rw [fuelOK_cls, ha]
+      split
+      · rfl
+      · exact size_tys_bound g b _ ihb _ _ (by have := fields_size_le_specSize g n; omega)
+    have := chain_bound g hwf hshort (b + 1) _ hconc g.spec.classes.length n (by omega)
+    have e : (b + 1 + 1) * levelCost g =
+        (b + 1) * levelCost g + 2 * specSize g.spec + 1 +
+          g.spec.classes.length * (g.spec.classes.length + 1) := by
+      rw [Nat.succ_mul (b + 1)]; unfold levelCost; omega
+    rw [e]; exact this
+
+theorem levelCost_le (g : Grammar) :
+    levelCost g ≤ (g.spec.classes.length + 4) * (specSize g.spec + 2) := by
+  have hL := length_le_specSize g.spec
+  have h1 : g.spec.classes.length * g.spec.classes.length ≤ g.spec.classes.length * specSize g.spec :=
+    Nat.mul_le_mul_left _ hL
+  unfold levelCost
+  rw [Nat.mul_add, Nat.add_mul, Nat.mul_add, Nat.mul_add]
+  omega
+
+theorem boundedFuel_ok (g : Grammar) (hwf : altsWF g)
+    (hshort : ∀ n ps, g.altsOf n = some ps → ps.length ≤ g.spec.classes.length) (d n : Nat) :
+    fuelOK g (4 * (d + 2) * (g.spec.classes.length + 4) * (specSize g.spec + 2) + 64) d (.cls n) = true := by
+  refine fuelOK_mono_le g d _ _ _ ?_ (cls_bound g hwf hshort d n)
+  have h1 := levelCost_le g
+  have h2 : (d + 1) * levelCost g ≤ (4 * (d + 2)) * ((g.spec.classes.length + 4) * (specSize g.spec + 2)) :=
+    Nat.mul_le_mul (by omega) h1
+  rw [← Nat.mul_assoc] at h2
+  omega
+
 /-! ### An example grammar for the non-vacuity checks:
 `E ::= Lit(v : IntRange(0,1)) | Add(l : E, r : E) | Seq(xs : ListSizeBetween(1,2) of E, b : bool)
      | Opt(u : Union[E, IntList([7])], t : tuple[bool, VarRange(["x","y"])])` -/
